@@ -16,8 +16,8 @@ func ruleText(thorough bool) string {
 	if thorough {
 		reduced = "byte substitutions and the remaining truncations run Text, ToMarkdown, Chunks, PageCount + the matching raw parsers; doubles: all pairs of structural faults (classes 2-6) within the same PDF object / xref section / ZIP record / XML tag, then all remaining pairs of the same layer until the internal time budget is used up, run through Text, Chunks, PageCount + the matching raw parsers; "
 	}
-	return "bases: 8 generated PDFs (classic xref; xref stream+object streams+Flate; Type0/ToUnicode; indirect /Length+indirect Resources; two revisions+depth-2 page tree; Flate+PNG predictor+xref stream; nested Form XObjects; embedded TrueType program), DOCX, ODT, XLSX, PPTX, EPUB2, EPUB3, HTML (0.6-7 KB each). " +
-		"Fault catalogue, applied at EVERY site (no sampling): (1) truncation at every byte offset of the file and at every token boundary of every ZIP member / decoded PDF Flate stream; (2) every maximal digit run -> 0, -1, 2147483648, 9223372036854775807, every binary ZIP header field -> 0, all-ones, high-bit, max-positive; " +
+	return "bases: 9 generated PDFs (classic xref with a marked-content dictionary and a TJ array in the content; uncompressed xref stream+object stream; xref stream+object streams+Flate; Type0/ToUnicode; indirect /Length+indirect Resources; two revisions+depth-2 page tree; Flate+PNG predictor+xref stream; nested Form XObjects; embedded TrueType program), DOCX, ODT, XLSX, PPTX, EPUB2, EPUB3, HTML (0.6-7 KB each). " +
+		"Fault catalogue, applied at EVERY site (no sampling): (1) truncation at every byte offset of the file and at every token boundary of every ZIP member / decoded PDF stream (container rebuilt consistently); (2) every maximal digit run -> 0, -1, 2147483648, 9223372036854775807, every binary ZIP header field -> 0, all-ones, high-bit, max-positive; " +
 		"(3) PDF: every indirect reference retargeted to every object number, every startxref, /Prev and xref-entry offset retargeted to every section and object offset; (4) every PDF object dropped / duplicated (rebuilt through pdfw with a consistent xref, and raw span removal / duplication), every ZIP member dropped / duplicated; " +
 		"(5) every delimiter deleted / doubled / swapped for its partner (PDF ( ) [ ] < > << >>, XML/HTML < > \" / = & ;); (6) every compressed stream (PDF Flate streams, deflated ZIP members: raw bytes and inside a consistent container) first/middle/last byte flipped, truncated by 1, emptied; " +
 		"(7) single-byte substitution at every offset of every base file, of every ZIP member's content (re-zipped validly) and of every decoded PDF Flate stream (re-encoded) from {00,FF,20,0A,<,>,(,),[,/,0,9}. Classes 2,3,5 are applied twice on PDFs: on the raw bytes, and on the object bodies of the pdfw plan with the file rebuilt (offsets and /Length stay consistent). " +
@@ -261,11 +261,15 @@ func (r *runner) enumPDF(bi *baseInfo) {
 		switch p.kind {
 		case "body":
 			T = append(T, structuralEdits(pi, p.text, true, nobj, nil, g, nil)...)
-			T = append(T, edit{part: pi, op: "drop", class: "drop", group: p.name})
-			T = append(T, edit{part: pi, op: "dup", class: "dup", group: p.name})
+			if !p.xs {
+				T = append(T, edit{part: pi, op: "drop", class: "drop", group: p.name})
+				T = append(T, edit{part: pi, op: "dup", class: "dup", group: p.name})
+			}
 		case "data":
 			if isTextual(p.text) {
 				T = append(T, structuralEdits(pi, p.text, true, 0, nil, g, nil)...)
+			} else if p.xs {
+				T = append(T, streamEdits(pi, 0, len(p.text), p.text, p.name)...)
 			}
 		}
 	}
@@ -276,16 +280,21 @@ func (r *runner) enumPDF(bi *baseInfo) {
 		if p.kind != "data" {
 			continue
 		}
-		o := b.file.Revs[p.rev].Objs[p.idx]
-		if o.Stream == nil || !bytes.Contains([]byte(o.Stream.Dict), []byte("/Filter")) {
-			continue // unfiltered: the raw layer already substitutes these bytes
-		}
 		g := func(int) string { return p.name }
 		tb := map[int]bool{}
 		for _, off := range tokenBoundaries(p.text, nil, "()<>[]/%") {
 			tb[off] = true
 		}
+		// truncation at every token boundary of the decoded data, /Length and offsets consistent
 		r.truncs(bi, pi, p.text, tb, false, g)
+		if !p.xs {
+			o := b.file.Revs[p.rev].Objs[p.idx]
+			if o.Stream == nil || !bytes.Contains([]byte(o.Stream.Dict), []byte("/Filter")) {
+				continue // unfiltered: the raw layer already substitutes these bytes
+			}
+		} else if isTextual(p.text) {
+			continue // the content stream: same bytes as in the raw layer
+		}
 		r.subs(bi, pi, p.text, g)
 	}
 
